@@ -141,12 +141,15 @@ partial def loop (cfg : Cfg) (hin hout : IO.FS.Stream) : IO Unit := do
     match unhex a, unhex b with
     | some x, some y =>
       hout.putStrLn "ok"
+      hout.flush
       loop { cppflag := x, incdir := y } hin hout
     | _, _ =>
       hout.putStrLn "bad-request"
+      hout.flush
       loop cfg hin hout
   | _ =>
     hout.putStrLn (answer cfg l)
+    hout.flush
     loop cfg hin hout
 
 def main : IO Unit := do
